@@ -322,6 +322,8 @@ def r20_3_who_may_bypass(ctx: Ctx) -> None:
                     allowed[recv] = allowed["simplified"]
                 if isinstance(val, ast.Call) and call_attr(val) == "commute" and recv == f"{recv_root}.second" and "commutator.second" in allowed:
                     allowed[recv] = allowed["commutator.second"]
+                if isinstance(val, ast.Attribute) and val.attr == "operation" and recv == recv_root and src(val.value).endswith(".skip_to"):
+                    allowed[recv] = "the operation of an existing node (read as an attribute instead of captured by a pattern)"
             # a pattern capture of the sanctioned parameter counts as that parameter
             root = recv
             if recv not in allowed:
